@@ -15,13 +15,36 @@ U = {"s": 2.0 ** -24, "d": 2.0 ** -53, "c": 2.0 ** -24, "z": 2.0 ** -53}
 
 
 def scaled_matrix(rng, n, cplx, kind):
-    """well-conditioned core (strictly diagonally dominant) times power-of-two row/column scalings that force an equed outcome"""
-    M = G.random_matrix(rng, n, rng.choice(["random", "band", "arrow", "grid", "dense", "forest"]), "float", cplx=cplx, dominant=True)
+    """well-conditioned core (strictly diagonally dominant) times power-of-two row/column scalings that force an equed outcome.
+    'row' / 'col' are built so that ONLY that scaling is applied (one dense, dominant row resp. column), 'both' scales rows and columns,
+    'mixed' uses random scalings (any outcome)."""
+    pat, _ = G.pattern(rng, n, rng.choice(["random", "band", "arrow", "grid", "dense", "forest"]))
+    star = rng.randrange(n)
+    if kind == "col":
+        for i in range(n): pat.add((i, star))
+    if kind == "row":
+        for j in range(n): pat.add((star, j))
+    gv = G.values(rng, "float")
+    M = G.from_pattern(n, pat, (lambda i, j: (gv(), gv())) if cplx else (lambda i, j: gv()), cplx)
+    # strict diagonal dominance by rows and columns
+    rs_ = [0.0] * n; cs_ = [0.0] * n
+    for j, col in M.cols():
+        for i, v in col:
+            if i != j:
+                a = abs(complex(*v)) if cplx else abs(v)
+                rs_[i] += a; cs_[j] += a
+    for j in range(n):
+        for k in range(M.colptr[j], M.colptr[j + 1]):
+            if M.rowind[k] == j:
+                d = float(int(max(rs_[j], cs_[j]) + 2 + rng.random() * 3))
+                M.vals[k] = (d, 0.0) if cplx else d
     rs = [0] * n; cs = [0] * n
-    if kind in ("row", "both"):
-        rs = [rng.choice([0, 0, 12, -14, 20]) for _ in range(n)]
-    if kind in ("col", "both"):
-        cs = [rng.choice([0, 0, 13, -11, 18]) for _ in range(n)]
+    if kind == "row": rs[star] = rng.choice([14, 20, 24])
+    elif kind == "col": cs[star] = rng.choice([14, 20, 24])
+    elif kind == "both":
+        rs = [rng.choice([0, 0, 12, -14, 20]) for _ in range(n)]; cs = [rng.choice([0, 0, 13, -11, 18]) for _ in range(n)]
+    elif kind == "mixed":
+        rs = [rng.choice([0, 0, 0, 9, -7]) for _ in range(n)]; cs = [rng.choice([0, 0, 0, 8, -9]) for _ in range(n)]
     for j in range(n):
         for k in range(M.colptr[j], M.colptr[j + 1]):
             f = 2.0 ** (rs[M.rowind[k]] + cs[j])
@@ -31,19 +54,19 @@ def scaled_matrix(rng, n, cplx, kind):
 
 def run(ctx):
     q = ctx.quick()
-    ncases = 420 if q else 12000
+    ncases = 1440 if q else 28800     # multiples of the full cube (18 option cells x 5 scalings x 4 precisions = 360)
     nmax = 14 if q else 40
     C.build_lib("plain")
     exes = C.build_harness_all_prec("h_drv.c", "plain", precs="sdcz")
     rng = random.Random(ctx.seed * 7 + 707)
     cases = []
     t = 0
-    cube = [(st, tr, fa, kind) for st in ("NC", "NR") for tr in (0, 1, 2) for fa in (0, 1, 2) for kind in ("none", "row", "col", "both")]
+    cube = [(st, tr, fa, kind) for st in ("NC", "NR") for tr in (0, 1, 2) for fa in (0, 1, 2) for kind in ("none", "row", "col", "both", "mixed")]
     while len(cases) < ncases:
         st, tr, fa, kind = cube[t % len(cube)]
-        prec = "dszc"[(t // len(cube)) % 4] if not q else rng.choice("dszc")
+        prec = "dszc"[(t // len(cube)) % 4]
         cplx = prec in "cz"
-        n = rng.choice([1, 2, 3, 5, 8, rng.randint(2, nmax)])
+        n = rng.choice([2, 3, 5, 8, rng.randint(2, nmax)])
         M = scaled_matrix(rng, n, cplx, kind)
         if prec in "sc": G.round_single(M)
         nrhs = rng.choice([1, 1, 2, 0])
@@ -88,6 +111,7 @@ def run(ctx):
         res = ops[-1]; B = B2 if cfg["fact"] == 2 else B1
         hist["equed=%d" % res["equed"]] += 1; hist["info=%s" % ("0" if res["info"] == 0 else "n+1" if res["info"] == n + 1 else "other")] += 1
         cells.add((cfg["stype"], cfg["trans"], cfg["fact"], res["equed"], cfg["prec"]))
+        hist["scaling=%s->equed=%d" % (cfg["scaling"], res["equed"])] += 1
         if res["info"] not in (0, n + 1):
             ctx.violation(conj_key or "info-range", "info=%d not in {0,n+1} for a nonsingular system %s" % (res["info"], cfg), blob); continue
         if res["xerbla"][0]:
